@@ -7,6 +7,8 @@ import WhVerif.Lemmas.C06Locate
 import WhVerif.Lemmas.C06Window
 import WhVerif.Lemmas.C06NoRef
 import WhVerif.Lemmas.C06Enum
+import WhVerif.Lemmas.C06IndelWindow
+import WhVerif.Lemmas.C06IndelNoRef
 /-!
 # C06 — allele detection never assigns the wrong allele to an error-free read: theorems about the model
 
@@ -553,5 +555,368 @@ example : noRefGo Fixes.asIs ['T', 'T', 'T', 'G', 'G', 'G'] none false 20 0 [(0,
       = ([], none) := by decide
 
 end NonVacuity
+
+/-! ## `window_is_padded_allele` — deletions, insertions, runs of M/=/X blocks -/
+
+/-- `window_is_padded_allele`, all variant types.  An error-free read in canonical alignment: the CIGAR is
+`A ++ W1 ++ [(op, len)] ++ W2 ++ B`, where `W1`, `W2` are runs of M/=/X operations (no other non-reference allele of the
+read's haplotype near the variant) and `(op, len)` is the operation the walker finds the variant position `pos` in, at
+offset `d`:
+* an M/=/X block, when the carried allele `a` is as long as REF (REF itself — also of a deletion/insertion variant —,
+  an SNV, an MNP);
+* the deletion `(D, |REF|)` directly at `pos`, when the read carries the empty allele of a deletion variant;
+* the insertion `(I, |a|)` directly at `pos`, when REF is empty and the read carries the inserted allele `a`.
+The read's bases over `W1 ++ [(op, len)] ++ W2` are a copy of the haplotype `hapOf R pos |REF| a` (`hq`); the read
+covers the variant (`hcov`: the window is not cut inside the variant); on either side the M/=/X run reaches the end of
+the ±`oh` window, or the window ends there (`endsWindow`: only soft/hard clips up to the read start/end, or — with
+the repaired `cigar_prefix_length`, `f14` — up to a reference skip): truncated window.  Then `realign`'s window is
+`⟨lp ++ a ++ rp, [lp ++ x ++ rp | x ∈ REF :: ALTs]⟩`. -/
+theorem window_is_padded_allele (f14 : Bool) (R query : Seq) (pos : Nat) (ref a : Seq) (alts : List Seq)
+    (A W1 W2 B : Cigar) (op len d start oh : Nat) (hoh : 0 < oh)
+    (hW1 : W1.all isMatchOp = true) (hW2 : W2.all isMatchOp = true)
+    (hshape : (isMatch op = true ∧ d < len ∧ a.length = ref.length)
+      ∨ (op = 2 ∧ a = [] ∧ len = ref.length ∧ d = 0 ∧ 0 < len)
+      ∨ (op = 1 ∧ ref = [] ∧ len = a.length ∧ d = 0 ∧ 0 < len))
+    (hpos : pos = start + refLen A + refLen W1 + d)
+    (hR : slice R pos ref.length = ref)
+    (hcov : pos + ref.length ≤ start + refLen A + refLen (W1 ++ (op, len) :: W2))
+    (hin : start + refLen A + refLen (W1 ++ (op, len) :: W2) ≤ R.length)
+    (hleft : oh ≤ refLen W1 + d ∨ endsWindow f14 A.reverse = true)
+    (hright : pos + ref.length + oh ≤ start + refLen A + refLen (W1 ++ (op, len) :: W2) ∨ endsWindow f14 B = true)
+    (hq : slice query (qLen A) (qLen (W1 ++ (op, len) :: W2)) =
+      slice (hapOf R pos ref.length a) (start + refLen A) (qLen (W1 ++ (op, len) :: W2))) :
+    ∃ lp rp, window f14 ⟨pos, ref, alts⟩ query (A ++ W1 ++ (op, len) :: (W2 ++ B)) (A ++ W1).length d
+        ((qLen (A ++ W1) + d : Nat) : Int) R oh
+      = .ok ⟨lp ++ a ++ rp, (ref :: alts).map (fun x => lp ++ x ++ rp)⟩ :=
+  window_canonical f14 R query pos ref a alts A W1 W2 B op len d start oh hoh hW1 hW2 hshape hpos hR hcov hin hleft
+    hright hq
+
+/-- `window_is_padded_allele` for a DELETION carried by the read: the CIGAR has the D of the right length directly at
+the (normalised) variant position, M/=/X runs around it. -/
+theorem window_is_padded_allele_deletion (f14 : Bool) (R query : Seq) (pos : Nat) (ref : Seq) (alts : List Seq)
+    (A W1 W2 B : Cigar) (start oh : Nat) (hoh : 0 < oh) (hL : 0 < ref.length)
+    (hW1 : W1.all isMatchOp = true) (hW2 : W2.all isMatchOp = true)
+    (hpos : pos = start + refLen A + refLen W1)
+    (hR : slice R pos ref.length = ref)
+    (hin : pos + ref.length + refLen W2 ≤ R.length)
+    (hleft : oh ≤ refLen W1 ∨ endsWindow f14 A.reverse = true)
+    (hright : oh ≤ refLen W2 ∨ endsWindow f14 B = true)
+    (hq : slice query (qLen A) (qLen W1 + qLen W2) =
+      slice (hapOf R pos ref.length []) (start + refLen A) (qLen W1 + qLen W2)) :
+    ∃ lp rp, window f14 ⟨pos, ref, alts⟩ query (A ++ W1 ++ (2, ref.length) :: (W2 ++ B)) (A ++ W1).length 0
+        ((qLen (A ++ W1) : Nat) : Int) R oh
+      = .ok ⟨lp ++ rp, (ref :: alts).map (fun x => lp ++ x ++ rp)⟩ := by
+  have hr2 : refLen (W1 ++ (2, ref.length) :: W2) = refLen W1 + (ref.length + refLen W2) := by
+    simp [refLen_append, refLen, consumesRef]
+  have hq2 : qLen (W1 ++ (2, ref.length) :: W2) = qLen W1 + qLen W2 := by
+    simp [qLen_append, qLen, consumesQuery, isMatch]
+  obtain ⟨lp, rp, hw⟩ := window_canonical f14 R query pos ref [] alts A W1 W2 B 2 ref.length 0 start oh hoh hW1 hW2
+    (Or.inr (Or.inl ⟨rfl, rfl, rfl, rfl, hL⟩)) (by omega) hR (by omega) (by omega)
+    (by rcases hleft with h | h; left; omega; right; exact h)
+    (by rcases hright with h | h; left; omega; right; exact h)
+    (by rw [hq2]; exact hq)
+  exact ⟨lp, rp, by simpa using hw⟩
+
+/-- `window_is_padded_allele` for an INSERTION carried by the read: REF is empty (normalised), the CIGAR has the I of
+the allele's length directly at the variant position, M/=/X runs around it. -/
+theorem window_is_padded_allele_insertion (f14 : Bool) (R query : Seq) (pos : Nat) (a : Seq) (alts : List Seq)
+    (A W1 W2 B : Cigar) (start oh : Nat) (hoh : 0 < oh) (hL : 0 < a.length)
+    (hW1 : W1.all isMatchOp = true) (hW2 : W2.all isMatchOp = true)
+    (hpos : pos = start + refLen A + refLen W1)
+    (hin : pos + refLen W2 ≤ R.length)
+    (hleft : oh ≤ refLen W1 ∨ endsWindow f14 A.reverse = true)
+    (hright : oh ≤ refLen W2 ∨ endsWindow f14 B = true)
+    (hq : slice query (qLen A) (qLen W1 + (a.length + qLen W2)) =
+      slice (hapOf R pos 0 a) (start + refLen A) (qLen W1 + (a.length + qLen W2))) :
+    ∃ lp rp, window f14 ⟨pos, [], alts⟩ query (A ++ W1 ++ (1, a.length) :: (W2 ++ B)) (A ++ W1).length 0
+        ((qLen (A ++ W1) : Nat) : Int) R oh
+      = .ok ⟨lp ++ a ++ rp, (lp ++ rp) :: alts.map (fun x => lp ++ x ++ rp)⟩ := by
+  have hr2 : refLen (W1 ++ (1, a.length) :: W2) = refLen W1 + refLen W2 := by
+    simp [refLen_append, refLen, consumesRef, isMatch]
+  have hq2 : qLen (W1 ++ (1, a.length) :: W2) = qLen W1 + (a.length + qLen W2) := by
+    simp [qLen_append, qLen, consumesQuery]
+  obtain ⟨lp, rp, hw⟩ := window_canonical f14 R query pos [] a alts A W1 W2 B 1 a.length 0 start oh hoh hW1 hW2
+    (Or.inr (Or.inr ⟨rfl, rfl, rfl, rfl, hL⟩)) (by omega) (by simp [slice]) (by simp; omega) (by omega)
+    (by rcases hleft with h | h; left; omega; right; exact h)
+    (by rcases hright with h | h; left; simp; omega; right; exact h)
+    (by rw [hq2]; exact hq)
+  exact ⟨lp, rp, by simpa using hw⟩
+
+/-- consequence of the window lemma and `realign_sound_exact`, all variant types, any number of ALT alleles: for such
+a read, carrying allele number `h` (all other alleles differ from it, none symbolic), `realign` returns `h`. -/
+theorem realign_canonical_correct (f14 : Bool) (R query : Seq) (pos : Nat) (ref a : Seq) (alts : List Seq) (h : Nat)
+    (hh : (ref :: alts)[h]? = some a) (hdist : ∀ k b, (ref :: alts)[k]? = some b → k ≠ h → b ≠ a)
+    (hsym : ∀ x ∈ alts, x.head? ≠ some '<')
+    (A W1 W2 B : Cigar) (op len d start oh : Nat) (hoh : 0 < oh)
+    (hW1 : W1.all isMatchOp = true) (hW2 : W2.all isMatchOp = true)
+    (hshape : (isMatch op = true ∧ d < len ∧ a.length = ref.length)
+      ∨ (op = 2 ∧ a = [] ∧ len = ref.length ∧ d = 0 ∧ 0 < len)
+      ∨ (op = 1 ∧ ref = [] ∧ len = a.length ∧ d = 0 ∧ 0 < len))
+    (hpos : pos = start + refLen A + refLen W1 + d)
+    (hR : slice R pos ref.length = ref)
+    (hcov : pos + ref.length ≤ start + refLen A + refLen (W1 ++ (op, len) :: W2))
+    (hin : start + refLen A + refLen (W1 ++ (op, len) :: W2) ≤ R.length)
+    (hleft : oh ≤ refLen W1 + d ∨ endsWindow f14 A.reverse = true)
+    (hright : pos + ref.length + oh ≤ start + refLen A + refLen (W1 ++ (op, len) :: W2) ∨ endsWindow f14 B = true)
+    (hq : slice query (qLen A) (qLen (W1 ++ (op, len) :: W2)) =
+      slice (hapOf R pos ref.length a) (start + refLen A) (qLen (W1 ++ (op, len) :: W2))) :
+    realign f14 lev ⟨pos, ref, alts⟩ none query (A ++ W1 ++ (op, len) :: (W2 ++ B)) (A ++ W1).length d
+        ((qLen (A ++ W1) + d : Nat) : Int) R oh = .ok (some h) := by
+  obtain ⟨lp, rp, hw⟩ := window_canonical f14 R query pos ref a alts A W1 W2 B op len d start oh hoh hW1 hW2 hshape hpos
+    hR hcov hin hleft hright hq
+  have hs : isSymbolic ⟨pos, ref, alts⟩ = false := by
+    simp only [isSymbolic, List.any_eq_false]
+    intro x hx
+    simpa using hsym x hx
+  apply realign_sound_exact f14 _ query _ _ _ _ R oh _ hs hw h
+  · simp only [List.getElem?_map, hh, Option.map_some]
+  · intro k pk hk hkh
+    simp only [List.getElem?_map, Option.map_eq_some_iff] at hk
+    obtain ⟨b, hb, rfl⟩ := hk
+    have := hdist k b hb hkh
+    simp only [List.append_assoc, ne_eq, List.append_cancel_left_eq, List.append_cancel_right_eq]
+    exact this
+
+/-- `realign_indel_correct`: a bi-allelic deletion (`alt = []`) or insertion (`ref = []`) variant, a read carrying
+allele `h` in canonical alignment — REF: the variant position lies in an M/=/X block; ALT: the D / I of the right length
+directly at the variant position — gets allele `h` from `realign` (with the Levenshtein distance). -/
+theorem realign_indel_correct (f14 : Bool) (R query : Seq) (pos : Nat) (ref alt : Seq) (h : Nat)
+    (hindel : (alt = [] ∧ 0 < ref.length) ∨ (ref = [] ∧ 0 < alt.length)) (hsym : alt.head? ≠ some '<')
+    (A W1 W2 B : Cigar) (op len d start oh : Nat) (hoh : 0 < oh)
+    (hW1 : W1.all isMatchOp = true) (hW2 : W2.all isMatchOp = true)
+    (hshape : (h = 0 ∧ isMatch op = true ∧ d < len)
+      ∨ (h = 1 ∧ alt = [] ∧ op = 2 ∧ len = ref.length ∧ d = 0)
+      ∨ (h = 1 ∧ ref = [] ∧ op = 1 ∧ len = alt.length ∧ d = 0))
+    (hpos : pos = start + refLen A + refLen W1 + d)
+    (hR : slice R pos ref.length = ref)
+    (hcov : pos + ref.length ≤ start + refLen A + refLen (W1 ++ (op, len) :: W2))
+    (hin : start + refLen A + refLen (W1 ++ (op, len) :: W2) ≤ R.length)
+    (hleft : oh ≤ refLen W1 + d ∨ endsWindow f14 A.reverse = true)
+    (hright : pos + ref.length + oh ≤ start + refLen A + refLen (W1 ++ (op, len) :: W2) ∨ endsWindow f14 B = true)
+    (hq : slice query (qLen A) (qLen (W1 ++ (op, len) :: W2)) =
+      slice (hapOf R pos ref.length (if h = 0 then ref else alt)) (start + refLen A) (qLen (W1 ++ (op, len) :: W2))) :
+    realign f14 lev ⟨pos, ref, [alt]⟩ none query (A ++ W1 ++ (op, len) :: (W2 ++ B)) (A ++ W1).length d
+        ((qLen (A ++ W1) + d : Nat) : Int) R oh = .ok (some h) := by
+  have hne : ref ≠ alt := by
+    rcases hindel with ⟨rfl, h0⟩ | ⟨rfl, h0⟩
+    · intro e; rw [e] at h0; simp at h0
+    · intro e; rw [← e] at h0; simp at h0
+  have hh2 : h = 0 ∨ h = 1 := by rcases hshape with ⟨e, _⟩ | ⟨e, _⟩ | ⟨e, _⟩ <;> simp [e]
+  apply realign_canonical_correct f14 R query pos ref (if h = 0 then ref else alt) [alt] h
+    (by rcases hh2 with rfl | rfl <;> simp)
+    (by
+      intro k b hk hkh
+      match k, hk with
+      | 0, hk =>
+        simp at hk; subst hk
+        rcases hh2 with rfl | rfl
+        · exact absurd rfl hkh
+        · simpa using hne
+      | 1, hk =>
+        simp at hk; subst hk
+        rcases hh2 with rfl | rfl
+        · simpa using fun e => hne e.symm
+        · exact absurd rfl hkh
+      | k + 2, hk => simp at hk)
+    (by intro x hx; simp at hx; subst hx; exact hsym)
+    A W1 W2 B op len d start oh hoh hW1 hW2
+    (by
+      rcases hshape with ⟨rfl, hm, hd⟩ | ⟨rfl, rfl, rfl, rfl, rfl⟩ | ⟨rfl, rfl, rfl, rfl, rfl⟩
+      · exact Or.inl ⟨hm, hd, by simp⟩
+      · refine Or.inr (Or.inl ⟨rfl, by simp, rfl, rfl, ?_⟩)
+        rcases hindel with ⟨_, h0⟩ | ⟨e, h0⟩
+        · exact h0
+        · simp at h0
+      · refine Or.inr (Or.inr ⟨rfl, rfl, by simp, rfl, ?_⟩)
+        rcases hindel with ⟨e, h0⟩ | ⟨_, h0⟩
+        · subst e; simp at h0
+        · simpa using h0)
+    hpos hR hcov hin hleft hright hq
+
+/-- … and the walker does report exactly that split point when at least one base (the anchor) is matched in the M/=/X
+run before the variant position: `i` = index of the operation, `consumed = d`, `query_pos` = query bases before it
+(`locate` is the walker's result by `iterateCigar_spec`). -/
+theorem walker_split_canonical (A W1 C : Cigar) (op len d pos start : Nat) (hW1 : W1.all isMatchOp = true)
+    (hop : (isMatch op = true ∧ d < len) ∨ (op = 2 ∧ d = 0 ∧ 0 < len) ∨ (op = 1 ∧ d = 0))
+    (hpos : pos = start + refLen A + refLen W1 + d) (hanch : 0 < refLen W1 + d) :
+    locate pos 0 start 0 (A ++ W1 ++ (op, len) :: C) = some ((A ++ W1).length, d, qLen (A ++ W1) + d) :=
+  locate_canonical A W1 C op len d pos start hW1 hop hpos hanch
+
+/-! ### non-vacuity of the indel window theorems -/
+
+section NonVacuityIndel
+/-- reference `GGACTGTT`; deletion `CT>ε` at 3; insertion `ε>TT` at 3 -/
+private def Rg : Seq := ['G', 'G', 'A', 'C', 'T', 'G', 'T', 'T']
+
+/-- a read carrying the deletion, `2S 3M 2D 3M` at 0 -/
+example : realign true lev ⟨3, ['C', 'T'], [[]]⟩ none ['T', 'T', 'G', 'G', 'A', 'G', 'T', 'T']
+    ([(4, 2)] ++ [(0, 3)] ++ (2, 2) :: ([(0, 3)] ++ [])) ([(4, 2)] ++ [(0, 3)]).length 0
+    ((qLen ([(4, 2)] ++ [(0, 3)]) + 0 : Nat) : Int) Rg 2 = .ok (some 1) :=
+  realign_indel_correct true Rg _ 3 ['C', 'T'] [] 1 (Or.inl ⟨rfl, by decide⟩) (by decide)
+    [(4, 2)] [(0, 3)] [(0, 3)] [] 2 2 0 0 2 (by decide) (by decide) (by decide)
+    (Or.inr (Or.inl ⟨rfl, rfl, rfl, rfl, rfl⟩)) (by decide) (by decide) (by decide) (by decide)
+    (Or.inl (by decide)) (Or.inl (by decide)) (by decide)
+
+/-- a read carrying REF of that deletion, starting one base before it (`6M` at 2: left pad truncated to 1 base) -/
+example : realign true lev ⟨3, ['C', 'T'], [[]]⟩ none ['A', 'C', 'T', 'G', 'T', 'T']
+    ([] ++ [] ++ (0, 6) :: ([] ++ [])) (([] : Cigar) ++ []).length 1
+    ((qLen (([] : Cigar) ++ []) + 1 : Nat) : Int) Rg 2 = .ok (some 0) :=
+  realign_indel_correct true Rg _ 3 ['C', 'T'] [] 0 (Or.inl ⟨rfl, by decide⟩) (by decide)
+    [] [] [] [] 0 6 1 2 2 (by decide) (by decide) (by decide)
+    (Or.inl ⟨rfl, rfl, by decide⟩) (by decide) (by decide) (by decide) (by decide)
+    (Or.inr (by decide)) (Or.inl (by decide)) (by decide)
+
+/-- a read carrying the insertion, `3M 2I 2M 1H` at 0 -/
+example : realign true lev ⟨3, [], [['T', 'T']]⟩ none ['G', 'G', 'A', 'T', 'T', 'C', 'T']
+    ([] ++ [(0, 3)] ++ (1, 2) :: ([(0, 2)] ++ [(5, 1)])) (([] : Cigar) ++ [(0, 3)]).length 0
+    ((qLen (([] : Cigar) ++ [(0, 3)]) + 0 : Nat) : Int) Rg 2 = .ok (some 1) :=
+  realign_indel_correct true Rg _ 3 [] ['T', 'T'] 1 (Or.inr ⟨rfl, by decide⟩) (by decide)
+    [] [(0, 3)] [(0, 2)] [(5, 1)] 1 2 0 0 2 (by decide) (by decide) (by decide)
+    (Or.inr (Or.inr ⟨rfl, rfl, rfl, rfl, rfl⟩)) (by decide) (by decide) (by decide) (by decide)
+    (Or.inl (by decide)) (Or.inl (by decide)) (by decide)
+
+/-- the deletion read `3M 2D 1M 5N 4M`: the window is cut at the reference skip (repaired `cigar_prefix_length`) -/
+example : realign true lev ⟨3, ['C', 'T'], [[]]⟩ none ['G', 'G', 'A', 'G', 'A', 'A', 'A', 'A']
+    ([] ++ [(0, 3)] ++ (2, 2) :: ([(0, 1)] ++ [(3, 5), (0, 4)])) (([] : Cigar) ++ [(0, 3)]).length 0
+    ((qLen (([] : Cigar) ++ [(0, 3)]) + 0 : Nat) : Int) Rg 2 = .ok (some 1) :=
+  realign_indel_correct true Rg _ 3 ['C', 'T'] [] 1 (Or.inl ⟨rfl, by decide⟩) (by decide)
+    [] [(0, 3)] [(0, 1)] [(3, 5), (0, 4)] 2 2 0 0 2 (by decide) (by decide) (by decide)
+    (Or.inr (Or.inl ⟨rfl, rfl, rfl, rfl, rfl⟩)) (by decide) (by decide) (by decide) (by decide)
+    (Or.inl (by decide)) (Or.inr (by decide)) (by decide)
+
+/-- only clips up to the read end is a special case of `endsWindow` (the hypothesis of the SNV/MNP theorem) -/
+example (f14 : Bool) (X : Cigar) (h : X.all isClip = true) : endsWindow f14 X = true := endsWindow_of_clips f14 X h
+
+/-- the windows of the deletion read (`= X =` blocks on the left, read end after 1 base on the right) and of the
+insertion read -/
+example : ∃ lp rp, window true ⟨3, ['C', 'T'], [[]]⟩ ['G', 'G', 'A', 'G'] ([] ++ [(7, 1), (8, 1), (7, 1)] ++ (2, 2) :: ([(0, 1)] ++ [(4, 0)]))
+      (([] : Cigar) ++ [(7, 1), (8, 1), (7, 1)]).length 0 ((qLen (([] : Cigar) ++ [(7, 1), (8, 1), (7, 1)]) : Nat) : Int) Rg 2
+    = .ok ⟨lp ++ rp, (['C', 'T'] :: [[]]).map (fun x => lp ++ x ++ rp)⟩ :=
+  window_is_padded_allele_deletion true Rg _ 3 ['C', 'T'] [[]] [] [(7, 1), (8, 1), (7, 1)] [(0, 1)] [(4, 0)] 0 2 (by decide)
+    (by decide) (by decide) (by decide) (by decide) (by decide) (by decide) (Or.inl (by decide)) (Or.inr (by decide)) (by decide)
+
+example : ∃ lp rp, window true ⟨3, [], [['T', 'T']]⟩ ['G', 'G', 'A', 'T', 'T', 'C', 'T'] ([] ++ [(0, 3)] ++ (1, ['T', 'T'].length) :: ([(0, 2)] ++ []))
+      (([] : Cigar) ++ [(0, 3)]).length 0 ((qLen (([] : Cigar) ++ [(0, 3)]) : Nat) : Int) Rg 2
+    = .ok ⟨lp ++ ['T', 'T'] ++ rp, (lp ++ rp) :: [['T', 'T']].map (fun x => lp ++ x ++ rp)⟩ :=
+  window_is_padded_allele_insertion true Rg _ 3 ['T', 'T'] [['T', 'T']] [] [(0, 3)] [(0, 2)] [] 0 2 (by decide)
+    (by decide) (by decide) (by decide) (by decide) (by decide) (Or.inl (by decide)) (Or.inl (by decide)) (by decide)
+
+/-- the walker's split points on those reads -/
+example : locate 3 0 0 0 ([(4, 2)] ++ [(0, 3)] ++ (2, 2) :: [(0, 3)]) = some (2, 0, 5) :=
+  walker_split_canonical [(4, 2)] [(0, 3)] [(0, 3)] 2 2 0 3 0 (by decide) (Or.inr (Or.inl ⟨rfl, rfl, by decide⟩)) (by decide)
+    (by decide)
+example : (iterateCigar [3] 0 0 [(4, 2), (0, 3), (2, 2), (0, 3)]).1 = [⟨0, 2, 0, 5⟩]
+    ∧ (iterateCigar [3] 0 0 [(0, 3), (1, 2), (0, 2), (5, 1)]).1 = [⟨0, 1, 0, 3⟩] := by decide
+end NonVacuityIndel
+
+/-! ## `noref_unshiftable_indel_correct` — the no-reference detector on an isolated deletion / insertion -/
+
+/-- `noref_unshiftable_indel_correct` (repaired behaviour: `f13`, `f16` on; `f12`, `f14`, `f15` arbitrary).  One isolated
+variant `v` whose normalisation is the deletion `ref > ε` or the insertion `ε > alt` at `pos`; a read (any query
+qualities) whose CIGAR is `A ++ [(mop, m)] ++ …` with `A` arbitrary over the operators 0–8 (clips, skips, unrelated
+indels, …) ending before the anchor base, `mop` ∈ {M, =, X}, and
+* `h = 0`: the block `(mop, m)` contains the anchor base and the whole variant (for an insertion: the base on either
+  side), and — for a deletion — the read's bases there are REF;
+* `h = 1`, deletion: the block ends with the anchor base and is followed by the D of length `|ref|`;
+* `h = 1`, insertion: the block ends with the anchor base and is followed by the I of length `|alt|` whose query bases
+  are `alt`;
+`B` (what follows) arbitrary over the operators 0–8.  Then the detector raises no error and records exactly the carried
+allele `h` for the variant — quality: mean base quality of the matched REF bases of a deletion, else 30. -/
+theorem noref_unshiftable_indel_correct (fx : Fixes) (h13 : fx.f13 = true) (h16 : fx.f16 = true)
+    (v : Variant) (pos : Nat) (ref alt : Seq) (hnorm : normalize v = ⟨pos, ref, [alt]⟩)
+    (hindel : (alt = [] ∧ 0 < ref.length) ∨ (ref = [] ∧ 0 < alt.length))
+    (start : Nat) (A B : Cigar) (mop m : Nat) (cigar : Cigar) (query : Seq) (quals : Option (List Nat)) (h : Nat)
+    (hA : ∀ p ∈ A, p.1 ≤ 8) (hB : ∀ p ∈ B, p.1 ≤ 8) (hm : isMatch mop = true)
+    (hquals : ∀ l, quals = some l → l.length = query.length)
+    (hanchor : start + refLen A < pos)
+    (hshape :
+      (h = 0 ∧ cigar = A ++ (mop, m) :: B ∧ pos < start + refLen A + m ∧ pos + ref.length ≤ start + refLen A + m
+        ∧ slice query (qLen A + (pos - (start + refLen A))) ref.length = ref)
+      ∨ (h = 1 ∧ alt = [] ∧ cigar = A ++ (mop, m) :: (2, ref.length) :: B ∧ start + refLen A + m = pos)
+      ∨ (h = 1 ∧ ref = [] ∧ cigar = A ++ (mop, m) :: (1, alt.length) :: B ∧ start + refLen A + m = pos
+        ∧ slice query (qLen A + m) alt.length = alt)) :
+    detectNoRef fx [v] 0 start cigar query quals =
+      ([(0, h, indelQuality quals h ref (qLen A + (pos - (start + refLen A))))], none) := by
+  rw [detectNoRef_single fx v _ hnorm start (by simp only []; omega)]
+  have hcr : consumesRef mop = true := by simp [consumesRef, hm]
+  have hcq : consumesQuery mop = true := by simp [consumesQuery, hm]
+  rcases hshape with ⟨rfl, rfl, hlt, hcov, href⟩ | ⟨rfl, rfl, rfl, hend⟩ | ⟨rfl, rfl, rfl, hend, hins⟩
+  · -- REF
+    obtain ⟨an, hs⟩ := noRefGo_skip fx h16 query quals 0 ⟨pos, ref, [alt]⟩ A ((mop, m) :: B) hA false start 0 hanchor
+    rw [hs]
+    rcases hindel with ⟨rfl, hL⟩ | ⟨rfl, hL⟩
+    · rw [noRefGo_del_ref fx h13 query quals an (start + refLen A) (0 + qLen A) 0 pos ref mop m B hm hL (by omega) hcov
+        (by simpa using href) hquals hB]
+      simp [indelQuality, hL]
+    · rw [noRefGo_ins_ref fx query quals an (start + refLen A) (0 + qLen A) 0 pos alt mop m B hm hL hanchor hlt hB]
+      simp [indelQuality]
+  · -- ALT, deletion
+    have hL : 0 < ref.length := by
+      rcases hindel with ⟨_, hL⟩ | ⟨e, hL⟩
+      · exact hL
+      · simp at hL
+    obtain ⟨an, hs⟩ := noRefGo_skip fx h16 query quals 0 ⟨pos, ref, [[]]⟩ A ((mop, m) :: (2, ref.length) :: B) hA false
+      start 0 hanchor
+    obtain ⟨an2, hs2⟩ := noRefGo_step_skip fx h16 query quals an (start + refLen A) (0 + qLen A) 0 ⟨pos, ref, [[]]⟩ mop m
+      ((2, ref.length) :: B) (by have := isMatch_le8 mop hm; exact this) (by simp only [hcr, if_true]; omega)
+      (by intro e; subst e; simp [isMatch] at hm)
+    have e : start + refLen A + (if consumesRef mop = true then m else 0) = pos := by simp only [hcr, if_true]; exact hend
+    rw [hs, hs2, e, noRefGo_del_alt fx query quals an2 _ 0 pos ref B hL hB]
+    simp [indelQuality]
+  · -- ALT, insertion
+    have hL : 0 < alt.length := by
+      rcases hindel with ⟨e, hL⟩ | ⟨_, hL⟩
+      · subst e; simp at hL
+      · exact hL
+    obtain ⟨an, hs⟩ := noRefGo_skip fx h16 query quals 0 ⟨pos, [], [alt]⟩ A ((mop, m) :: (1, alt.length) :: B) hA false
+      start 0 hanchor
+    obtain ⟨an2, hs2⟩ := noRefGo_step_skip fx h16 query quals an (start + refLen A) (0 + qLen A) 0 ⟨pos, [], [alt]⟩ mop m
+      ((1, alt.length) :: B) (isMatch_le8 mop hm) (by simp only [hcr, if_true]; omega)
+      (by intro e; subst e; simp [isMatch] at hm)
+    have e : start + refLen A + (if consumesRef mop = true then m else 0) = pos := by simp only [hcr, if_true]; exact hend
+    rw [hs, hs2, e, noRefGo_ins_alt fx h16 query quals an2 _ 0 pos alt B hL (by simpa [hcq] using hins) hB]
+    simp [indelQuality]
+
+/-- "unshiftable": a VCF deletion `a·del > a` / insertion `a > a·ins` whose last deleted / inserted base differs from the
+anchor base `a` (so it cannot be moved to the left) is normalised to the position right after the anchor — the position
+at which `noref_unshiftable_indel_correct` expects the D / I. -/
+theorem normalize_unshiftable_indel (p : Nat) (a : Char) (s : Seq) (hne : s ≠ []) (hun : s.getLast? ≠ some a) :
+    normalize ⟨p, a :: s, [[a]]⟩ = ⟨p + 1, s, [[]]⟩ ∧ normalize ⟨p, [a], [a :: s]⟩ = ⟨p + 1, [], [s]⟩ :=
+  ⟨normalize_vcf_deletion p a s hne hun, normalize_vcf_insertion p a s hne hun⟩
+
+section NonVacuityNoRefIndel
+/-- deletion `ACT>A` at 2 (normalised `CT>ε` at 3), read `2S 3M 2D 3M` at 0 carrying it; qualities present -/
+example : detectNoRef Fixes.all [⟨2, ['A', 'C', 'T'], [['A']]⟩] 0 0 ([(4, 2)] ++ (0, 3) :: (2, ['C', 'T'].length) :: [(0, 3)])
+      ['T', 'T', 'G', 'G', 'A', 'G', 'T', 'T'] (some [9, 9, 20, 21, 22, 23, 24, 25])
+    = ([(0, 1, indelQuality (some [9, 9, 20, 21, 22, 23, 24, 25]) 1 ['C', 'T'] (qLen [(4, 2)] + (3 - (0 + refLen [(4, 2)]))))], none) :=
+  noref_unshiftable_indel_correct Fixes.all rfl rfl _ 3 ['C', 'T'] [] (by decide) (Or.inl ⟨rfl, by decide⟩) 0 [(4, 2)] [(0, 3)] 0 3 _ _ _ 1
+    (by decide) (by decide) rfl (by simp) (by decide) (Or.inr (Or.inl ⟨rfl, rfl, rfl, by decide⟩))
+
+/-- the same variant, a read carrying REF (`1I 7M` at 1): mean quality of the bases `C`, `T` -/
+example : detectNoRef Fixes.all [⟨2, ['A', 'C', 'T'], [['A']]⟩] 0 1 ([(1, 1)] ++ (7, 7) :: [])
+      ['T', 'G', 'A', 'C', 'T', 'G', 'T', 'T'] (some [9, 20, 21, 22, 25, 23, 24, 25])
+    = ([(0, 0, indelQuality (some [9, 20, 21, 22, 25, 23, 24, 25]) 0 ['C', 'T'] (qLen [(1, 1)] + (3 - (1 + refLen [(1, 1)]))))], none) :=
+  noref_unshiftable_indel_correct Fixes.all rfl rfl _ 3 ['C', 'T'] [] (by decide) (Or.inl ⟨rfl, by decide⟩) 1 [(1, 1)] [] 7 7 _ _ _ 0
+    (by decide) (by decide) rfl (by simp) (by decide) (Or.inl ⟨rfl, rfl, by decide, by decide, by decide⟩)
+example : indelQuality (some [9, 20, 21, 22, 25, 23, 24, 25]) 0 ['C', 'T'] (qLen [(1, 1)] + (3 - (1 + refLen [(1, 1)]))) = 23 := by
+  decide
+
+/-- insertion `A>ATT` at 2 (normalised `ε>TT` at 3): a read with the I (`3M 2I 2M 1H`), and a read matching through -/
+example : detectNoRef Fixes.all [⟨2, ['A'], [['A', 'T', 'T']]⟩] 0 0 ([] ++ (0, 3) :: (1, ['T', 'T'].length) :: [(0, 2), (5, 1)])
+      ['G', 'G', 'A', 'T', 'T', 'C', 'T'] none
+    = ([(0, 1, indelQuality none 1 [] (qLen [] + (3 - (0 + refLen []))))], none) :=
+  noref_unshiftable_indel_correct Fixes.all rfl rfl _ 3 [] ['T', 'T'] (by decide) (Or.inr ⟨rfl, by decide⟩) 0 [] [(0, 2), (5, 1)] 0 3 _ _
+    _ 1 (by decide) (by decide) rfl (by simp) (by decide) (Or.inr (Or.inr ⟨rfl, rfl, rfl, by decide, by decide⟩))
+
+example : detectNoRef Fixes.all [⟨2, ['A'], [['A', 'T', 'T']]⟩] 0 0 ([] ++ (0, 8) :: [])
+      ['G', 'G', 'A', 'C', 'T', 'G', 'T', 'T'] none
+    = ([(0, 0, indelQuality none 0 [] (qLen [] + (3 - (0 + refLen []))))], none) :=
+  noref_unshiftable_indel_correct Fixes.all rfl rfl _ 3 [] ['T', 'T'] (by decide) (Or.inr ⟨rfl, by decide⟩) 0 [] [] 0 8 _ _
+    _ 0 (by decide) (by decide) rfl (by simp) (by decide) (Or.inl ⟨rfl, rfl, by decide, by decide, by decide⟩)
+
+example : normalize ⟨2, 'A' :: ['C', 'T'], [['A']]⟩ = ⟨2 + 1, ['C', 'T'], [[]]⟩
+    ∧ normalize ⟨2, ['A'], ['A' :: ['C', 'T']]⟩ = ⟨2 + 1, [], [['C', 'T']]⟩ :=
+  normalize_unshiftable_indel 2 'A' ['C', 'T'] (by decide) (by decide)
+end NonVacuityNoRefIndel
 
 end WhVerif.Props.C06
